@@ -1,4 +1,5 @@
 //! arena-mc: explicit-state exploration of the real `Bump`/`BumpScope` (DESIGN.md §1, §3); see cli.rs.
+mod claimcoll;
 mod cli;
 mod configs;
 mod conv;
@@ -10,25 +11,27 @@ fn arg(args: &[String], name: &str) -> Option<String> {
     args.iter().position(|a| a == name).and_then(|i| args.get(i + 1).cloned())
 }
 
-/// C18 also owns the settings-conversion product (conv.rs): a closed, complete enumeration that is run before the
-/// history exploration
-fn conv_space(tier: &str) {
+/// A closed, complete product of cases that is run before the history exploration of its property
+/// (C18: settings conversions, conv.rs; C14: collections created before a claim, claimcoll.rs).
+fn closed_space(prop: &str, space: &str, flag: &str, rule: &str, tier: &str, outs: Vec<(String, Option<String>, bool)>, floor: usize) {
     let t0 = std::time::Instant::now();
-    let outs = conv::run_all();
     let total = outs.len();
-    let nontrivial = outs.iter().filter(|o| o.nontrivial).count();
+    let nontrivial = outs.iter().filter(|o| o.2).count();
     let mut viol = 0;
-    for o in &outs {
-        if let Some(m) = &o.msg {
+    for (id, msg, _) in &outs {
+        if let Some(m) = msg {
             viol += 1;
+            if viol > 8 {
+                continue;
+            }
             let vj = J::obj()
-                .set("prop", "C18")
-                .set("cfg", "conv")
+                .set("prop", prop)
+                .set("cfg", space)
                 .set("params", "")
-                .set("history", o.id.as_str())
+                .set("history", id.as_str())
                 .set("step", 0usize)
-                .set("msg", format!("settings conversion {}: {m}", o.id))
-                .set("replay_args", vec!["--conv".to_string(), o.id.clone()]);
+                .set("msg", format!("{id}: {m}"))
+                .set("replay_args", vec![flag.to_string(), id.clone()]);
             println!("VIOL {}", vj.to_string());
         }
     }
@@ -38,39 +41,55 @@ fn conv_space(tier: &str) {
     cov.put("traces_validated_against_impl", total);
     cov.put("evaluations", total);
     cov.put("distinct_nontrivial", nontrivial);
-    cov.put("rule", "conversion raises the minimum alignment, or the source is unallocated / claimed");
-    cov.put("samples", outs.iter().filter(|o| o.nontrivial).take(6).map(|o| o.id.clone()).collect::<Vec<_>>());
+    cov.put("rule", rule);
+    cov.put("samples", outs.iter().filter(|o| o.2).step_by((nontrivial / 6).max(1)).take(6).map(|o| o.0.clone()).collect::<Vec<_>>());
     cov.put("exhaustive", true);
     let j = J::obj()
-        .set("property_id", "C18")
-        .set("space", "settings-conversions")
+        .set("property_id", prop)
+        .set("space", space)
         .set("tier", tier)
         .set("seed", 0u64)
         .set("level", "model_checking")
         .set("coverage", cov)
         .set("wall_s", t0.elapsed().as_secs_f64())
         .set("violations", viol)
-        .set("floor", 100usize)
-        .set("floor_ok", nontrivial >= 100 || viol > 0);
+        .set("floor", floor)
+        .set("floor_ok", nontrivial >= floor || viol > 0);
     println!("SPACE {}", j.to_string());
 }
+
+const CONV_RULE: &str = "settings conversions: Bump::with_settings, BumpScope::with_settings (by value) and borrow_mut_with_settings for a product of source settings x target settings (minimum alignment 1/4/16 lowered and raised, guaranteed-allocated and claimable switched on/off, both directions) x arena state {allocated with a misaligned position, unallocated, claimed by a leaked guard}; a conversion must panic exactly when the target needs an allocated / unclaimed arena and the source is not, afterwards the position is a multiple of the new minimum alignment, earlier data is intact and the next allocation works; non-trivial = the conversion raises the minimum alignment, or the source is unallocated / claimed";
+const CLAIMCOLL_RULE: &str = "collections created before a claim: {BumpVec, BumpString} x 4 configurations x initial length 0..4 x spare capacity {as created, none} x guard activity {nothing, small allocation, chunk-growing allocation, scoped allocation, nested claim} x operation on the old collection during the claim {none, try_push, try_reserve, try_extend, push, reserve, pop, truncate, shrink_to_fit, read} x guard end {drop, unwind}; growth that needs memory must fail (Err / unwinding panic) and leave the contents alone, operations that need no memory behave as usual, after the claim the collection still holds its contents, keeps working (40-60 more pushes) and the blocks allocated through the guard are intact; non-trivial = a growth request was refused or the guard did something";
 
 fn main() {
     let args: Vec<String> = std::env::args().collect();
     let cmd = args.get(1).map(String::as_str).unwrap_or("");
     let prop = arg(&args, "--prop").unwrap_or_default();
-    if prop == "C18" && cmd == "check" {
+    let tier = arg(&args, "--tier").unwrap_or_else(|| "quick".into());
+    if cmd == "check" && prop == "C18" {
         vcore::crash::install();
-        conv_space(&arg(&args, "--tier").unwrap_or_else(|| "quick".into()));
+        let outs = conv::run_all().into_iter().map(|o| (o.id, o.msg, o.nontrivial)).collect();
+        closed_space("C18", "settings-conversions", "--conv", CONV_RULE, &tier, outs, 100);
     }
-    if prop == "C18" && cmd == "replay" {
-        if let Some(id) = arg(&args, "--conv") {
+    if cmd == "check" && prop == "C14" {
+        vcore::crash::install();
+        let outs = claimcoll::run_all().into_iter().map(|o| (o.id, o.msg, o.nontrivial)).collect();
+        closed_space("C14", "collections-created-before-the-claim", "--claimcoll", CLAIMCOLL_RULE, &tier, outs, 1000);
+    }
+    if cmd == "replay" {
+        let found = if let Some(id) = arg(&args, "--conv") {
             vcore::crash::install();
-            match conv::run_all().into_iter().find(|o| o.id == id) {
-                Some(o) => match o.msg {
-                    Some(m) => println!("REPLAY VIOLATION step=0 msg=settings conversion {}: {m}", o.id),
-                    None => println!("REPLAY OK"),
-                },
+            Some((id.clone(), conv::run_all().into_iter().find(|o| o.id == id).map(|o| o.msg)))
+        } else if let Some(id) = arg(&args, "--claimcoll") {
+            vcore::crash::install();
+            Some((id.clone(), claimcoll::run_one(&id).map(|o| o.msg)))
+        } else {
+            None
+        };
+        if let Some((id, r)) = found {
+            match r {
+                Some(Some(m)) => println!("REPLAY VIOLATION step=0 msg={id}: {m}"),
+                Some(None) => println!("REPLAY OK"),
                 None => println!("REPLAY DISABLED at=0"),
             }
             return;
